@@ -729,5 +729,26 @@ def verify_ctor_defaults(E, prop="C16"):
                          kind="forward", meta={"wrapper_default": ast.unparse(d[p_]) if p_ in d else None, "client_default": ast.unparse(cdef[p_]) if p_ in cdef else None})
 
 
+def verify_make_client_key(E, prop="C11"):
+    """HashClient._make_client_key: 'host:port' for a normalised (host, port) tuple, the value itself for a UNIX socket path (a list
+    is not a supported server spec: normalize_server_spec rejects it, so the function's list branch is unreachable and not specified)."""
+    q = H + "._make_client_key"
+    me = State().new_obj(H, {})
+    for shape in ("tuple", "path"):
+        E.case_suffix = "/" + shape
+        st = State()
+        me = st.new_obj(H, {})
+        host, port, path = z3.String("mk_host"), z3.Int("mk_port"), z3.String("mk_path")
+        st.assume(port >= 0)
+        arg = TupleV([StrV(host), IntV(port)]) if shape == "tuple" else (st.new_list([StrV(host), IntV(port)]) if shape == "list" else StrV(path))
+        for o in E.run_function(q, st, [arg], {}, selfv=me):
+            if o.kind != "return" or not isinstance(o.val, StrV):
+                E.oblige("%s/%s/post@ret(a-str)%s" % (prop, short(q), E.case_suffix), o.st, z3.BoolVal(False), func=q)
+                continue
+            want = path if shape == "path" else z3.Concat(host, z3.StringVal(":"), z3.IntToStr(port))
+            E.oblige("%s/%s/post@ret(%s)%s" % (prop, short(q), "the-path-itself" if shape == "path" else "host:port", E.case_suffix), o.st, o.val.t == want, func=q)
+    E.case_suffix = ""
+
+
 from pyvc.sym import guard_units as _guard_units
 _guard_units(globals())
